@@ -7,6 +7,7 @@
 -/
 import ClientGoVerif.Proofs.Retry
 import ClientGoVerif.Proofs.Selector
+import ClientGoVerif.Model.Validate
 namespace CGV.Props.C10
 open CGV CGV.Retry
 
@@ -391,4 +392,51 @@ example : (let down : List Rep := [{ live := 1 }, rep0, rep0]
            ((next s2 1).1, (next s2 1).2.sr, (next s2 1).2.rr)) = ([1, 2], true, false) := by decide
 
 end CGV.Props.C10.Selector
+
+/-
+  Read-timestamp validation (Model/Validate.lean).  Which request is a timestamped read is a SPEC over the request's shape;
+  the command enumeration and the table of `Request.GetStartTS` are regenerated from the Go source, so a new command, a new
+  timestamp getter or a changed row re-opens these proofs.
+-/
+namespace CGV.Props.C10.Validate
+open CGV CGV.Validate
+
+/-- the model sender never emits a timestamped read whose timestamp the oracle model refuses: with validation on, every
+    accepted run of the sender for such a request contains no RPC at all (it can only end with the validator's error) -/
+theorem timestamped_read_never_sent (base : Retry.Cfg) (sh : Shape) (ts : String) (stale : Bool)
+    (hm : mustValidate sh = true) (ho : oracleRefuses ts stale = true)
+    (es : List Retry.Ev) (st : Retry.State) (hrun : Retry.run (Retry.init (senderCfg base true sh ts stale)) es = some st) :
+    Retry.countSends es = 0 := by
+  apply CGV.Props.C10.invalid_ts_not_sent _ es st _ hrun
+  simp [senderCfg, mustRefuse, hm, ho]
+
+/-- and nothing is refused that need not be: validation off, not a timestamped read, or a timestamp the oracle accepts -/
+theorem refuses_only_invalid_reads (validate : Bool) (sh : Shape) (ts : String) (stale : Bool)
+    (h : mustRefuse validate sh ts stale = true) : validate = true ∧ mustValidate sh = true ∧ oracleRefuses ts stale = true := by
+  simpa [mustRefuse, Bool.and_eq_true, and_assoc] using h
+
+/-- over the regenerated table of `Request.GetStartTS`, the commands whose timestamp is a snapshot read version are exactly
+    Get, Scan, BatchGet, ScanLock, BufferBatchGet, Cop, CopStream, BatchCop -/
+theorem validated_commands :
+    (Gen.startTsTable.filter fun r => mustValidateGetter r.2.1 r.2.2).map (·.1) = validatedCmds := by decide
+
+/-- every timestamp getter `Request.GetStartTS` uses is one the spec has classified -/
+theorem getters_known : Gen.startTsTable.all (fun r => knownGetters.contains r.2.2) = true := by decide
+
+/-- the command enumeration of the source is covered: every CmdType constant either has a row in `Request.GetStartTS` or is
+    in the explicit list of commands without a readable timestamp (a new command must be classified) -/
+theorem enumeration_classified :
+    Gen.cmdTypes.all (fun c => (Gen.startTsTable.map (·.1)).contains c.1 || noStartTsCmds.contains c.1) = true := by decide
+
+/-- the shape rule and the getter rule agree on today's read requests (shapes as reported by reflection) -/
+example : mustValidate ⟨"kvrpcpb", ["Version"]⟩ = true ∧ mustValidate ⟨"kvrpcpb", ["MaxVersion"]⟩ = true ∧
+    mustValidate ⟨"coprocessor", ["CacheIfMatchVersion", "StartTs"]⟩ = true ∧
+    mustValidate ⟨"kvrpcpb", ["CommitTs", "StartTs", "Version"]⟩ = false ∧ mustValidate ⟨"kvrpcpb", ["MaxTs"]⟩ = false ∧
+    mustValidate ⟨"kvrpcpb", ["StartVersion"]⟩ = false := by decide
+example : mustRefuse true ⟨"kvrpcpb", ["MaxVersion"]⟩ "ahead" false = true ∧ mustRefuse true ⟨"kvrpcpb", ["Version"]⟩ "max" false = false ∧
+    mustRefuse false ⟨"kvrpcpb", ["Version"]⟩ "ahead" false = false := by decide
+example : (Retry.run (Retry.init (senderCfg ⟨3, 100, false, false, 0, false⟩ true ⟨"kvrpcpb", ["MaxVersion"]⟩ "ahead" false))
+    [.result .errTs false]).isSome = true := by decide
+
+end CGV.Props.C10.Validate
 
